@@ -60,7 +60,7 @@ func allLinks() []wire.Config {
 			out = append(out, wire.Config{Kind: k, Subset: sub})
 		}
 	}
-	out = append(out, wire.Config{Kind: wire.SSE})
+	out = append(out, wire.Config{Kind: wire.SSE}, wire.Config{Kind: wire.SSE, SlowFlush: true})
 	for _, k := range []string{wire.Stateful, wire.Stateless} {
 		for _, j := range []bool{false, true} {
 			for _, st := range []bool{false, true} {
